@@ -21,8 +21,9 @@ def interval(draw, extreme=False, exact_friendly=False, bigint=False):
     if extreme:
         kinds.append("extreme")
         kinds.append("ulps")
-    if bigint:
+    if bigint:  # the two exotic kinds only C02's direct sub-check asks for (open findings D12, D13)
         kinds.append("bigint")
+        kinds.append("tiny")
     kind = draw(st.sampled_from(kinds))
     if kind == "unit":
         return [0, 1] if draw(st.booleans()) else [0.0, 1.0]
@@ -41,6 +42,11 @@ def interval(draw, extreme=False, exact_friendly=False, bigint=False):
         return [lo, lo + w]
     if kind == "wide":
         return [-draw(_fin(1.0, 1e6)), draw(_fin(1.0, 1e6))]
+    if kind == "tiny":
+        # bounds around the smallest normal double 2^-1022 and below: halving a number there is no longer exact
+        u = 5e-324
+        lo = draw(st.sampled_from([0.0, 2.0 ** -1022, -(2.0 ** -1022), 2.0 ** -1030])) + draw(st.integers(-50, 2000)) * u
+        return [lo, lo + draw(st.sampled_from([2, 4, 6, 12, 1024, 4097, 10 ** 6])) * u]
     if kind == "ulps":
         # a valid, non-degenerate interval that is only a few ulps wide: cells collapse to single doubles
         lo = draw(st.sampled_from([1.0, 0.5, -3.0, 1000.0, 0.1]))
@@ -203,8 +209,9 @@ def algo_spec(draw, name, d, pspec, n_range=(100, 300), full=False, hct_caps_ina
         return {"name": name, "params": {"nu": nu, "rho": rho, "rounds": n}}
     if name in ("HCT", "VHCT"):
         c = draw(st.floats(0.01, 2.0))
-        delta = draw(loguniform(1e-6, 0.99 if full else 0.3))
-        if hct_caps_inactive:
+        delta = draw(st.one_of(loguniform(1e-6, 0.99 if full else 0.3), st.floats(0.3, 0.99))) if hct_caps_inactive else \
+            draw(loguniform(1e-6, 0.99 if full else 0.3))
+        if hct_caps_inactive and draw(st.booleans()):
             c1 = (rho / (3 * nu)) ** 0.125
             if c1 * delta > 0.5:
                 delta = 0.5 / c1 * 0.999
